@@ -434,18 +434,11 @@ func runMulti(f lib.Flags, res *lib.Result, drv *lib.Driver) {
 	stuck := 0
 	for i := 0; i < n; i++ {
 		ms := genMulti(r, i < n/4)
-		var per [][]burstObs
-		runs := 0
-		confirmed(res, mon, func(sk sink) any {
-			o := ms.run()
-			if runs == 0 {
-				per = o
-			}
-			runs++
-			ms.monitor(sk, o)
-			return o
-		}, func(t1, t2 any) any { return enrich(ms, t1, t2) })
-		if stuckMulti(per) {
+		isStuck, ok := evalMulti(res, ms, drv, tie, mon)
+		if !ok {
+			return
+		}
+		if isStuck {
 			stuck++
 			stuckSeen++
 			fenceTimeout = stuckTimeout
@@ -454,25 +447,88 @@ func runMulti(f lib.Flags, res *lib.Result, drv *lib.Driver) {
 				break
 			}
 		}
-		if drv == nil {
-			continue
+	}
+}
+
+// evalMulti runs one shared-bus session: monitor (self-confirming) and tie.  ok = false: the driver failed.
+func evalMulti(res *lib.Result, ms multiSession, drv *lib.Driver, tie *lib.Tie, mon sink) (stuck, ok bool) {
+	var per [][]burstObs
+	runs := 0
+	confirmed(res, mon, func(sk sink) any {
+		o := ms.run()
+		if runs == 0 {
+			per = o
 		}
-		lines, offs := ms.driverLines()
-		ans, err := drv.Batch(lines)
-		if err != nil {
-			tie.Fail(err)
-			return
+		runs++
+		ms.monitor(sk, o)
+		return o
+	}, func(t1, t2 any) any { return enrich(ms, t1, t2) })
+	stuck = stuckMulti(per)
+	if drv == nil {
+		return stuck, true
+	}
+	lines, offs := ms.driverLines()
+	ans, err := drv.Batch(lines)
+	if err != nil {
+		tie.Fail(err)
+		return stuck, false
+	}
+	nontrivial := false
+	var cfg []string
+	for _, sc := range ms.Subs {
+		if !sc.Pred.Nil {
+			nontrivial = true
 		}
-		nontrivial := false
-		var cfg []string
-		for _, sc := range ms.Subs {
-			if !sc.Pred.Nil {
-				nontrivial = true
+		cfg = append(cfg, fmt.Sprintf("%s/%v/%s/%v/%d", sc.Pred.token(), sc.BP, sc.Mask, sc.UpdatesOnly, sc.After))
+	}
+	model, code := ms.answers(ans, offs, per, tie.Count)
+	tie.Record(fmt.Sprintf("%s|%s|%d|%s", strings.Join(cfg, ";"), ms.Equiv, ms.NBefore, strings.Join(ms.Ops, " ")), nontrivial, ms, model, code)
+	tie.Count(fmt.Sprintf("subscribers=%d", len(ms.Subs)))
+	return stuck, true
+}
+
+// runMultiTable: the decision table of a masked and a filtered subscriber on one bus, exhaustively.
+func runMultiTable(f lib.Flags, res *lib.Result, drv *lib.Driver) {
+	tie := res.Tie("shared-bus-table", "K2",
+		"exhaustive: one item of two-field messages; every transition old -> new with old, new in {absent, xp, xq, yp} (15: adds, deletes, updates changing the first field, the second, both or nothing) x an unfiltered subscriber with read mask none / keep1 / keep2 x a filtered unmasked subscriber whose predicate is one of: first field x, first field y, second field p, second field q, everything, nothing x the two subscription orders; both with backpressure (every subscriber's stream is exact), turns forced into subscription order; model `mpull`; non-trivial = always (a predicate is present); distinct = (transition, mask, predicate, order)")
+	tie.Exhaustive = true
+	mon := res.Monitor("shared-bus-table-cells", "on the same 540 sessions, independent of the model: each of the two subscribers is sent exactly its own filtered, masked edit script and folds to List with its options; distinct = (subscriber, predicate, burst)")
+	vals := []string{"-", "xp", "xq", "yp"}
+	pvals := append(append([]string{}, valsWide...), "__")
+	for _, mask := range []string{"", "keep1", "keep2"} {
+		for _, pm := range []uint64{6, 24, 10, 20, 63, 0} {
+			for order := 0; order < 2; order++ {
+				for _, o := range vals {
+					for _, n := range vals {
+						if o == "-" && n == "-" {
+							continue
+						}
+						ms := multiSession{Kind: "multi", Wide: true}
+						if o != "-" {
+							ms.NBefore = 1
+							ms.Ops = append(ms.Ops, "add:a:"+o)
+						}
+						switch {
+						case o == "-":
+							ms.Ops = append(ms.Ops, "add:a:"+n)
+						case n == "-":
+							ms.Ops = append(ms.Ops, "del:a")
+						default:
+							ms.Ops = append(ms.Ops, "upd:a:"+n)
+						}
+						masked := subCfg{Pred: pred{Nil: true}, BP: true, Mask: mask}
+						filtered := subCfg{Pred: pred{Ids: []string{"a"}, Vals: pvals, Mask: pm}, BP: true}
+						if order == 0 {
+							ms.Subs = []subCfg{masked, filtered}
+						} else {
+							ms.Subs = []subCfg{filtered, masked}
+						}
+						if _, ok := evalMulti(res, ms, drv, tie, mon); !ok {
+							return
+						}
+					}
+				}
 			}
-			cfg = append(cfg, fmt.Sprintf("%s/%v/%s/%v/%d", sc.Pred.token(), sc.BP, sc.Mask, sc.UpdatesOnly, sc.After))
 		}
-		model, code := ms.answers(ans, offs, per, tie.Count)
-		tie.Record(fmt.Sprintf("%s|%s|%d|%s", strings.Join(cfg, ";"), ms.Equiv, ms.NBefore, strings.Join(ms.Ops, " ")), nontrivial, ms, model, code)
-		tie.Count(fmt.Sprintf("subscribers=%d", len(ms.Subs)))
 	}
 }
